@@ -718,7 +718,10 @@ func (w *world) opPick(op *Op) {
 	}
 	var ctx context.Context
 	var cancel context.CancelFunc
-	if op.DlMs > 0 {
+	if op.Exp {
+		ctx, cancel = context.WithDeadline(base, time.Now().Add(-time.Second))
+		w.labels["pick-with-ended-context"]++
+	} else if op.DlMs > 0 {
 		ctx, cancel = context.WithTimeout(base, time.Duration(op.DlMs)*time.Millisecond)
 	} else {
 		ctx, cancel = context.WithCancel(base)
